@@ -1377,6 +1377,24 @@ def pattern_mul32(context, tree, c0, c1):
     return d
 
 
+@arm_isa.pattern("reg", "MULI16(reg, reg)", size=4)
+@arm_isa.pattern("reg", "MULU16(reg, reg)", size=4)
+def pattern_mul16(context, tree, c0, c1):
+    d = context.new_reg(ArmRegister)
+    context.emit(Mul1(d, c0, c1))
+    return d
+
+
+@arm_isa.pattern("reg", "MULI8(reg, reg)", size=8)
+@arm_isa.pattern("reg", "MULU8(reg, reg)", size=8)
+def pattern_mul8(context, tree, c0, c1):
+    d = context.new_reg(ArmRegister)
+    context.emit(Mul1(d, c0, c1))
+    d2 = context.new_reg(ArmRegister)
+    context.emit(AndImm(d2, d, 0xFF))
+    return d2
+
+
 @arm_isa.pattern("reg", "LDRI32(ADDI32(reg, CONSTI32))", size=4)
 def pattern_ldr32(context, tree, c0):
     d = context.new_reg(ArmRegister)
